@@ -39,6 +39,8 @@ class C18(Prop):
     rule = "one record per diagonalize()/SBRG()/kernel call with the returned circuit's gate list"
 
     def models(self):
+        # L2: transcribed pauli_diagonalize1/2 satisfy their postconditions for every string / anticommuting pair
+        self.model("MC_Sampler", "MC_Sampler_t.cfg" if self.tier == "thorough" else "MC_Sampler_f.cfg", name="diagalg_postconditions", workers=4)
         self.maps = {}
         for n in (1, 2):
             pf = "%s/maps_n%d.txt" % (self.wd, n)
